@@ -131,8 +131,12 @@ type pathState struct {
 	reprLens   int
 	ghostVer   map[string]int
 
-	initAppsLoaded bool
+	initAppsSeen  int
+	axiomsPending bool
+	firstUnsat    string
 }
+
+var paranoid = os.Getenv("GOSE_PARANOID") != ""
 
 func (ps *pathState) noteCall(fn *ssa.Function) {
 	if ps.called != nil {
@@ -171,6 +175,14 @@ func (ps *pathState) assume(t *Term) {
 	}
 	ps.simpMemo = nil
 	ps.i.sol.assert(t)
+	if paranoid && ps.firstUnsat == "" {
+		if ps.i.sol.check() == resUnsat {
+			buf := make([]byte, 1<<13)
+			n := runtime.Stack(buf, false)
+			ps.firstUnsat = fmt.Sprintf("path condition became unsat after asserting %s (replaying=%v)\n%s", t.String(), ps.pos <= len(ps.prefix), buf[:n])
+			fmt.Fprintln(os.Stderr, "PARANOID:", ps.firstUnsat)
+		}
+	}
 	if ps.lastModel != nil {
 		if v, ok := t.eval(ps.lastModel, map[int]*big.Int{}); !ok || v.Sign() == 0 {
 			ps.lastModel = nil
@@ -201,6 +213,7 @@ func (i *interpreter) decide(c *Term) bool {
 		} else {
 			ps.assume(tb.Not(c))
 		}
+		ps.replayed()
 		return v != 0
 	}
 	ps.pos++
@@ -307,6 +320,7 @@ func (i *interpreter) concretize(t *Term, what string) uint64 {
 		ps.pos++
 		ps.trace = append(ps.trace, v)
 		ps.assume(tb.Eq(t, tb.Const(t.w, v)))
+		ps.replayed()
 		return v
 	}
 	ps.pos++
@@ -508,10 +522,30 @@ func (ps *pathState) model() map[string]string {
 	return m
 }
 
+// replayed is called after each replayed decision. When the prefix is exhausted the path
+// condition must be satisfiable (the run that produced the prefix checked it); if it is not, the
+// executions of the two runs diverged, which is an engine error, never a verdict.
+func (ps *pathState) replayed() {
+	if ps.pos != len(ps.prefix) || noReplayCheck {
+		return
+	}
+	switch ps.i.sol.check() {
+	case resUnsat:
+		panic(engineError{fmt.Sprintf("replay divergence: prefix %v is infeasible on this worker", ps.prefix)})
+	case resSat:
+		ps.fetchModel()
+	case resUnknown:
+		ps.unknown = true
+	}
+}
+
 // violation records a violation on the current path; cond (may be nil) is the
 // extra literal under which the solver currently has a model.
 func (ps *pathState) violation(label, msg string, extra *Term) {
 	i := ps.i
+	if i.warm {
+		return
+	}
 	kind := "assert"
 	switch {
 	case strings.HasPrefix(label, "panic"):
@@ -545,6 +579,9 @@ func (ps *pathState) violation(label, msg string, extra *Term) {
 		}
 	}
 	if n < 4 {
+		if len(ps.obs) > 0 {
+			msg += " | observations on the path: " + strings.Join(ps.obs, "; ")
+		}
 		sh.violations = append(sh.violations, violationRec{
 			Harness: sh.hname, Label: label, Kind: kind, Msg: msg, Model: model,
 			Trace: append([]uint64(nil), ps.trace...),
@@ -559,6 +596,24 @@ func (sh *shared) label(l string) *labelStat {
 		sh.labels[l] = ls
 	}
 	return ls
+}
+
+// warmup runs the harness once with every input pinned to zero and all results discarded, so
+// that lazily initialised packages (and the hash constants their initialisers compute) are
+// in place before the first explored path: package initialisation must not happen at
+// path-dependent moments, or replayed prefixes would see a different set of axioms.
+func (i *interpreter) warmup() {
+	if i.sh.opts.pin != nil {
+		return
+	}
+	i.warm = true
+	defer func() { i.warm = false; i.ps = nil }()
+	i.tb = newTermTable()
+	i.ps = &pathState{stepLimit: 5_000_000, allocLimit: allocLimitDefault, nondet: map[string]*Term{}, i: i}
+	func() {
+		defer func() { recover() }()
+		call(i, nil, token.NoPos, i.sh.harness, nil)
+	}()
 }
 
 // runPath executes the harness once along the given decision prefix.
@@ -707,6 +762,7 @@ func (sh *shared) worker(id int, wg *sync.WaitGroup) {
 	i := newInterpreter(sh, id)
 	i.sol = sol
 	defer sh.collectSolverStats(sol)
+	i.warmup()
 	for {
 		p, ok := sh.pop()
 		if !ok {
